@@ -1085,18 +1085,23 @@ class DiskRefsContainer(RefsContainer):
             with GitFile(path, "wb") as f:
                 # reread cached refs from disk, while holding the lock
                 packed_refs = self.get_packed_refs().copy()
+                peeled_refs = dict(self._peeled_refs or {})
 
                 for ref, target in new_refs.items():
                     # sanity check
                     if ref == HEADREF:
                         raise ValueError("cannot pack HEAD")
 
+                    if ref in packed_refs and packed_refs[ref] != target:
+                        # the peeled value on record belongs to the old target
+                        peeled_refs.pop(ref, None)
+
                     if target is not None:
                         packed_refs[ref] = target
                     else:
                         packed_refs.pop(ref, None)
 
-                write_packed_refs(f, packed_refs, self._peeled_refs)
+                write_packed_refs(f, packed_refs, peeled_refs)
 
             # Only now that the new packed-refs file is in place, remove any
             # loose refs pointing to these -- a reader (or a crash) in
